@@ -267,11 +267,14 @@ class GeneralCalibrationIndexKernel(IGeneralCalibrationIndexKernel):
 
         all_indices: List[int] = list(range(self.start_index, self.stop_index + 1))
         cycle_length: int = self.cycle_length
+        # Each calibration measurement is preceded by a heralded measurement only if heralded initialization is performed
+        heralded_offset: int = 1 if self.heralded_initialization else 0
+        state_stride: int = 1 + heralded_offset
         if state == StateKey.STATE_0:
-            return all_indices[1::cycle_length]
+            return all_indices[0 * state_stride + heralded_offset::cycle_length]
         if state == StateKey.STATE_1:
-            return all_indices[3::cycle_length]
+            return all_indices[1 * state_stride + heralded_offset::cycle_length]
         if state == StateKey.STATE_2:
-            return all_indices[5::cycle_length]
+            return all_indices[2 * state_stride + heralded_offset::cycle_length]
         return []
     # endregion
